@@ -139,8 +139,23 @@ func init() {
 			cs.Templates["payload.html"] = "<b>{{ p }}</b>{% block a %}{{ p }}{% endblock %}"
 			cs.Templates["payload.txt"] = "{{ p }}"
 			entries = append(entries, "payload.js", "payload.html", "payload.txt")
+			// a chain of 45 templates, each including or embedding the next: many
+			// calls are deep inside it at the same time (anything that all calls
+			// on one environment share - a budget, a stack, a cache - adds up)
+			for k := 0; k < 45; k++ {
+				next := "{{ p }}."
+				if k < 44 {
+					next = fmt.Sprintf("{%% include 'deep%d.html' %%}", k+1)
+					if k%3 == 2 {
+						next = fmt.Sprintf("{%% embed 'deep%d.html' %%}{%% block inner %%}e{{ parent() }}{%% endblock %%}{%% endembed %%}", k+1)
+					}
+				}
+				cs.Templates[fmt.Sprintf("deep%d.html", k)] = fmt.Sprintf("%d(%s{%% block inner %%}i%d{%% endblock %%})", k, next, k)
+			}
+			entries = append(entries, "deep0.html", "deep20.html")
 			sortStr(entries)
 			n := rapid.SampledFrom([]int{2, 8, 8, 64}).Draw(t, "N")
+			deep := rapid.IntRange(0, 5).Draw(t, "deep") == 0
 			nilCtx := rapid.IntRange(0, 3).Draw(t, "nilctx") == 0
 			for i := 0; i < n; i++ {
 				call := sb.Call{Kind: rapid.SampledFrom([]string{"execute", "execute", "parse", "safe"}).Draw(t, "kind"),
@@ -152,6 +167,10 @@ func init() {
 					if rapid.Bool().Draw(t, "rootset") {
 						call.Entry = rapid.SampledFrom([]string{"rootset_a.html", "rootset_b.txt"}).Draw(t, "rs")
 					}
+				}
+				if deep && i%4 != 3 {
+					// most calls of this workload walk the whole chain
+					call.Kind, call.Entry = "execute", "deep0.html"
 				}
 				cs.Calls = append(cs.Calls, call)
 			}
